@@ -766,6 +766,7 @@ type runningStep struct {
 	ctx                   context.Context
 	cancel                context.CancelFunc
 	cancelled             bool
+	stopInputAvailable    bool
 	atpClient             atp.Client
 	deployInput           chan any
 	deployInputAvailable  bool
@@ -844,8 +845,7 @@ func (r *runningStep) ProvideStageInput(stage string, input map[string]any) erro
 	case string(StageIDRunning):
 		return nil
 	case string(StageIDCancelled):
-		r.provideCancelledInput(input)
-		return nil
+		return r.provideCancelledInput(input)
 	case string(StageIDClosed):
 		return nil
 	case string(StageIDDeployFailed):
@@ -951,16 +951,23 @@ func (r *runningStep) provideStartingInput(input map[string]any) error {
 	return nil
 }
 
-func (r *runningStep) provideCancelledInput(input map[string]any) {
+func (r *runningStep) provideCancelledInput(input map[string]any) error {
 	// Note: The calling function must have the step mutex locked
+	// Like the input of the other stages, the stop condition is accepted once. Each time it is accepted the
+	// plugin may be sent a cancel signal, and the signal channel has limited room.
+	if r.stopInputAvailable {
+		return fmt.Errorf("stop condition provided more than once")
+	}
+	r.stopInputAvailable = true
 	// Cancel if the step field is present and isn't false
 	if input["stop_if"] == nil {
-		return
+		return nil
 	}
 	if input["stop_if"] != false {
 		r.cancelled = true
 		r.cancelStep()
 	}
+	return nil
 }
 
 func (r *runningStep) hasCancellationHandler() bool {
